@@ -465,7 +465,7 @@ func AutoDischarge(p *PPO) {
 			return
 		}
 		if !WireSized(p.Operand) {
-			p.Discharged, p.Why = true, "size is non-negative and derives from lengths / constants / at most three wire bytes"
+			p.Discharged, p.Why = true, "size is non-negative and derives from lengths / constants / a single wire byte"
 			return
 		}
 		if DominatingGuard(f, p.Instr, func(cd *Cond) int { return remainingBoundEdge(cd, p.Operand) }) {
@@ -937,6 +937,12 @@ func wireSized(v ssa.Value, params bool) bool {
 		case *ssa.ChangeType:
 			return walk(x.X, depth+1)
 		case *ssa.BinOp:
+			// x % c and x & c with a constant c are bounded by c whatever x is
+			if x.Op == token.REM || x.Op == token.AND {
+				if _, isConst := ConstInt(x.Y); isConst {
+					return false
+				}
+			}
 			return walk(x.X, depth+1) || walk(x.Y, depth+1)
 		case *ssa.Phi:
 			for _, e := range x.Edges {
@@ -959,12 +965,8 @@ func wireSized(v ssa.Value, params bool) bool {
 			case n == "builtin:len" || n == "builtin:cap", strings.HasSuffix(n, ".NumField"), strings.HasSuffix(n, "reflect.Value).Len"):
 				return false
 			case strings.HasSuffix(n, "littleEndian).Uint32"), strings.HasSuffix(n, "bigEndian).Uint32"):
-				// 3 bytes read + one zero byte (PopMessage) is at most 2^24-1; a full 4-byte read is wire sized
-				if len(x.Call.Args) == 2 {
-					if app, ok := x.Call.Args[1].(*ssa.Call); ok && CalleeName(app.Common()) == "builtin:append" {
-						return false
-					}
-				}
+				// three wire bytes (PopMessage's long form) are up to 16 MiB: out of proportion to a 4-byte input,
+				// so wire sized like a full 4-byte read
 				return true
 			}
 			return true
